@@ -2,6 +2,7 @@
 //! the cfg(blake3_team_blake3_verif) hooks. One sub-engine per property; see /verif/DESIGN.md.
 mod c01;
 mod c09;
+#[cfg(feature = "std")]
 mod c11;
 mod c14;
 mod c15;
@@ -31,6 +32,7 @@ fn main() {
             "C02" | "C10" => hbfs::replay(&v),
             "C03" => xbfs::replay(&v),
             "C09" => c09::replay(&v),
+            #[cfg(feature = "std")]
             "C11" => c11::replay(&v),
             "C14" => c14::replay(&v),
             "C15" => c15::replay(&v),
@@ -64,6 +66,7 @@ fn main() {
         "C01" => c01::run(&args, &mut rep),
         "C03" => xbfs::run(&args, &mut rep),
         "C09" => c09::run(&args, &mut rep),
+        #[cfg(feature = "std")]
         "C11" => c11::run(&args, &mut rep),
         "C14" => c14::run(&args, &mut rep),
         "C15" => c15::run(&args, &mut rep),
